@@ -394,8 +394,14 @@ def gen_behaviours(workdir, spec, cfg, out_file, mode="simulate", num=100, depth
     return kept, out
 
 
+def evidence_dir():
+    # evidence committed under /verif describes runs against /repo itself; a run
+    # against another tree (VERIF_REPO, seeded-change trials) keeps its evidence apart
+    return os.path.join(ROOT, "evidence") if REPO == "/repo" else os.path.join(BUILD, "evidence")
+
+
 def write_evidence(pid, tier, seed, coverage, wall, violations, assumptions):
-    os.makedirs(os.path.join(ROOT, "evidence"), exist_ok=True)
+    os.makedirs(evidence_dir(), exist_ok=True)
     cc = code_coverage()
     if cc:
         coverage = dict(coverage, code_statements=cc,
@@ -404,7 +410,7 @@ def write_evidence(pid, tier, seed, coverage, wall, violations, assumptions):
     ev = {"property_id": pid, "tier": tier, "seed": seed, "level": "model_checking",
           "coverage": coverage, "assumptions": assumptions, "wall_s": round(wall, 1),
           "violations": violations}
-    with open(os.path.join(ROOT, "evidence", pid + ".json"), "w") as f:
+    with open(os.path.join(evidence_dir(), pid + ".json"), "w") as f:
         json.dump(ev, f, indent=1, sort_keys=True, default=str)
 
 
